@@ -1,9 +1,10 @@
 // e_seg: dispatch by key type; C03, C04.
 #include "../common/engine.hpp"
+#include "../common/keygen.hpp"
 #include "../common/tape.hpp"
 
 #ifdef _OPENMP
-extern "C" int omp_get_num_procs(void) { return 64; }
+extern "C" int omp_get_num_procs(void) { return vf::g_fake_procs; }
 #endif
 
 namespace vf {
